@@ -37,11 +37,11 @@ def fs_setup(place):
     return lines
 
 
-def replay(verdict, exe, res, seed=0, tag="sp", sigprefix="sp"):
+def replay(verdict, exe, res, seed=0, tag="sp", sigprefix="sp", only_balance=False):
     check_env(res)
     scripts, meta = [], {}
     for n, b in enumerate(res.behaviours):
-        lines = list(SCHEMA) + fs_setup(b["place"]) + ["init c1 S 0", "dump 0"]
+        lines = list(SCHEMA) + fs_setup(b["place"]) + ["chdir $R", "init c1 S 0", "dump 0"]
         for d in b["sp"]:
             lines.append("searchpath c1 %s" % enc(RAW.get(d, d)))
         names = sorted(b["resolve"].keys())
@@ -92,7 +92,7 @@ def replay(verdict, exe, res, seed=0, tag="sp", sigprefix="sp"):
                 else:
                     if l["ret"] != 0 or sval(l) != marker:
                         probs.append("%s(%r): ret %d, parsed file marker %r, expected %r" % (what, nm, l["ret"], sval(l), marker))
-        if probs:
+        if probs and not only_balance:
             verdict.violation("%s:%s" % (sigprefix, desc), "%s :: %s" % (desc, "; ".join(probs[:4])), {"behaviour": b})
         if g["end"] and (g["end"]["live"] != g["begin"]["live"] or g["end"]["fds"] != g["begin"]["fds"]):
             verdict.violation("%s:balance:%s" % (sigprefix, desc), "%s :: heap blocks / descriptors not restored" % desc, {"behaviour": b})
